@@ -18,6 +18,16 @@ package types
 //@   ensures infix_operands_parenthesised_as_needed: emittedHere("(") == needsLeft(t) + needsRight(t) && emittedHere(")") == needsLeft(t) + needsRight(t)
 //@   ensures elementwise_tokens: (t.Operator == dsl.BinaryOpAdd ==> emittedHere("+") == 1) && (t.Operator == dsl.BinaryOpSub ==> emittedHere("-") == 1) && (t.Operator == dsl.BinaryOpMul ==> emittedHere(".*") == 1) && (t.Operator == dsl.BinaryOpDiv ==> emittedHere("./") == 1) && (t.Operator == dsl.BinaryOpPow ==> emittedHere("^") == 1)
 
+// ---- C14 "enum base types": the class of a generated enum is declared over the MATLAB type of the base type the model
+// declares, and over int32 when it declares none - the type the binary serializer of the enum uses in all three
+// targets (matlab/binary.typeDefinitionSerializer, C++ int32_t) and the range validation admits (negative values
+// included: a class over an unsigned type saturates them to 0).
+//@ func writeEnum@emits:"classdef %s < %s\n"
+//@   property C14
+//@   inline
+//@   ensures an_enum_class_is_declared_over_its_base_type: old(enum.BaseType) != nil ==> emittedHere("classdef %s < %s\n") == 1 && emittedArg("classdef %s < %s\n", 0, 1, string) == old(common.TypeSyntax(enum.BaseType, enum.Namespace))
+//@   ensures an_enum_class_without_a_base_is_declared_over_int32: old(enum.BaseType) == nil ==> emittedHere("classdef %s < %s\n") == 1 && emittedArg("classdef %s < %s\n", 0, 1, string) == "int32"
+
 // Output and diagnostics may not depend on the iteration order of a Go map (C12): decided per `range` over a map.
 //@ map-order C12 package
 
